@@ -184,6 +184,25 @@ def rule_recovery(ctx):
     ri = ctx.prog.func("startup.reset_interrupted_steps")
     src = _norm(ast.unparse(ri.node))
     shared.check_failed_steps_retried(ctx, "a step that was RUNNING and detached at the kill is reset to FAILED by the raw update but not re-pended: after the restart it is reattached FAILED when an ancestor is recycled and skipped, and the build fails where the uninterrupted build succeeds")
+    # both resets run at every start: not under a condition (e.g. 'only when a step had failed')
+    parents = {}
+    for n in ast.walk(ri.node):
+        for c in ast.iter_child_nodes(n):
+            parents[c] = n
+    for st in ctx.sql.stmts_in(ri.fq):
+        if st.kind == "UPDATE" and any(w[0] == "UPDATE" and w[1] == "step" and w[2] == "state" for w in st.writes):
+            node, guard = st.site.call, None
+            while node in parents:
+                node = parents[node]
+                if isinstance(node, (ast.If, ast.For, ast.While, ast.Try)):
+                    guard = ast.unparse(node.test)[:60] if isinstance(node, (ast.If, ast.While)) else type(node).__name__
+                    break
+            ctx.check(guard is None, ri.fq, "the raw reset of a transient state runs unconditionally", f"the reset is only executed under `{guard}`: with nothing else to retry, a step that was being checked (or was running) at the kill keeps its transient state for ever and the restarted build ends pending", "top level of the start-up transaction", where=f"stepup/core/startup.py:{st.site.lineno}")
+    rf0 = ctx.prog.func("startup.rescan_files")
+    for st in ctx.sql.stmts_in(rf0.fq):
+        if st.kind == "SELECT":
+            flat = re.sub(r"\s+", " ", st.text)
+            ctx.check(re.search(r"\bhash\b\s*(IS|=|!=|<>)", flat.split(" FROM ", 1)[-1], re.I) is None, rf0.fq, "the rescan does not leave out rows by their stored hash", "rows without a stored hash are skipped: a file whose first confirmation was interrupted by the kill stays UNCONFIRMED, its consumers stay blocked and the restarted build ends pending", "no condition on hash", where=f"stepup/core/startup.py:{st.site.lineno}")
     for st in ctx.sql.stmts_in(ri.fq):
         if st.kind == "UPDATE":
             ctx.check("detached" not in st.text, ri.fq, "raw reset also covers detached steps", "the reset filters on detached: a detached step that was running stays RUNNING for ever", "no detached filter")
@@ -269,7 +288,7 @@ RULES = [
     Rule("R-C05-8", "startup rescans are wired to their reactions", rule_startup_wiring, min_instances=6),
     Rule("R-C05-1", "all SQL runs inside one transaction region; none nests", rule_transactions, min_instances=30),
     Rule("R-C05-2", "completion units are one transaction", rule_atomic_units, min_instances=4),
-    Rule("R-C05-3", "every transient state has a recovery", rule_recovery, min_instances=10),
+    Rule("R-C05-3", "every transient state has a recovery", rule_recovery, min_instances=13),
     Rule("R-C05-4", "journal before effect", rule_journal, min_instances=2),
     Rule("R-C05-5", "connection settings", rule_connection, min_instances=4),
     Rule("R-C05-6", "consistency is checked at every open", rule_open_check, min_instances=2),
@@ -277,6 +296,7 @@ RULES = [
 ]
 
 MUTANTS = [
+    Mutant("checking-reset-only-with-failed-steps", "startup.py", in_function("reset_interrupted_steps", lambda t: t.replace('        db.execute(\n            "UPDATE step SET state = ? WHERE state = ?",\n            (StepState.PENDING.value, StepState.CHECKING.value),\n        )\n', "", 1).replace("        async with db:\n            for step in failed_steps:\n", '        async with db:\n            db.execute(\n                "UPDATE step SET state = ? WHERE state = ?",\n                (StepState.PENDING.value, StepState.CHECKING.value),\n            )\n            for step in failed_steps:\n', 1) if "(StepState.PENDING.value, StepState.CHECKING.value)" in t and "            for step in failed_steps:\n" in t else None), ("R-C05-3",)),
     Mutant("env-value-stored-in-own-transaction", "startup.py", in_function("rescan_env_vars", lambda t: t.replace("            for node_i, name in changed_uses:\n                steps_to_rerun[node_i].refresh_env_dep(name)\n", "", 1).replace("        async with workflow.db:\n            for step in steps_to_rerun.values():\n", "        async with workflow.db:\n            for node_i, name in changed_uses:\n                steps_to_rerun[node_i].refresh_env_dep(name)\n        async with workflow.db:\n            for step in steps_to_rerun.values():\n", 1) if "steps_to_rerun[node_i].refresh_env_dep(name)" in t else None), ("R-C05-8",)),
     Mutant("rescan-files-goes-nowhere", "startup.py", in_function("rescan_files", replace_once("        path_hash_causes.append((path, old_file_hash, cause))\n", "        pass\n")), ("R-C05-8",)),
     Mutant("rescan-nglobs-goes-nowhere", "startup.py", in_function("rescan_nglobs", replace_once("            changed_nglobs.append((nglob_i, step, new_ng))\n", "            pass\n")), ("R-C05-8",)),
